@@ -301,6 +301,62 @@ func init() {
 				}
 			}
 		}
+		// two live messages of one type (same discriminators) must be independent objects, also after a truncated decode of
+		// that type was attempted and also when the receivers were earlier ENCODED with absent nested parts
+		for _, t := range schema.Types {
+			for rep := 0; rep < 2; rep++ {
+				a := g.msg(t.ID, true, 0)
+				b := a.clone()
+				// same keys, different contents
+				var bump func(v *Val)
+				bump = func(v *Val) {
+					for _, f := range v.Fs {
+						switch f.K {
+						case 'n':
+							f.N ^= 0x11
+						case 'm', 'M':
+							bump(f)
+						}
+					}
+				}
+				bump(b)
+				for i, op := range t.fieldOps() { // keep the discriminators
+					if op.K == "union" {
+						b.Fs[op.Key] = a.Fs[op.Key].clone()
+						_ = i
+					}
+				}
+				ra, rb := goEnc(a, nil, BufMode{}), goEnc(b, nil, BufMode{})
+				if ra.Class != "ok" || rb.Class != "ok" || len(ra.Appended) < 2 {
+					continue
+				}
+				shared := make([]byte, 0, len(ra.Appended)+len(rb.Appended)+16)
+				buf := bytes.NewBuffer(shared)
+				// a truncated frame of this type first
+				buf.Write(ra.Appended[:len(ra.Appended)/2])
+				guard(func() error { return typeCtors[t.ID]().(decoder).Decode(buf) })
+				buf.Reset()
+				objA, objB := typeCtors[t.ID](), typeCtors[t.ID]()
+				if rep == 1 { // receivers that were encoded before with everything absent
+					guard(func() error { return callEncode(objA, &bytes.Buffer{}) })
+					guard(func() error { return callEncode(objB, &bytes.Buffer{}) })
+				}
+				buf.Write(ra.Appended)
+				if c, _ := guard(func() error { return objA.(decoder).Decode(buf) }); c != "ok" {
+					continue
+				}
+				snapA := readObj(objA).String()
+				buf.Reset()
+				buf.Write(rb.Appended)
+				guard(func() error { return objB.(decoder).Decode(buf) })
+				if after := readObj(objA).String(); after != snapA {
+					o.violate(Violation{Property: "C16", Kind: "direct", What: "decoding a second message of the same type changed the first, still-live message (shared instance)",
+						Case: fmt.Sprintf("dec %d %s then dec %d %s", t.ID, hexOf(ra.Appended), t.ID, hexOf(rb.Appended)), Expected: trunc(snapA, 300), Observed: trunc(after, 300), Key: "shared-instance:" + t.QName()})
+					break
+				}
+				o.stat("two-live-messages")
+			}
+		}
 		return nil
 	}
 }
